@@ -125,6 +125,7 @@ func (n *Node) attach(conn net.Conn) {
 	n.conn, n.connected, n.closedByMe, n.muted = conn, true, false, false
 	n.pending = nil
 	n.gotVerack = false
+	n.sendHeaders = false // BIP 130: "sendheaders" holds for one connection
 	n.closeOutLocked()
 	n.out = make(chan wire.Message, 256)
 	out := n.out
@@ -294,6 +295,11 @@ func (n *Node) Mute() bool {
 func (n *Node) Snapshot() string {
 	n.mu.Lock()
 	defer n.mu.Unlock()
+	if !n.connected {
+		// requests that reached a closed connection, and its per-connection flags, are forgotten
+		// when the node attaches again: they are not part of the state
+		return fmt.Sprintf("n%d{conn=false len=%d future=%d}", n.ID, len(n.Chain)-1, len(n.Future))
+	}
 	var p []string
 	for _, g := range n.pending {
 		first := "-"
